@@ -30,7 +30,8 @@ Proof. intros H1 H2 (A & B & C & D). repeat split; auto. Qed.
 Lemma op_sem_agree Ps Pf I I' o vs : agree Ps Pf I I' -> op_sem I o vs = op_sem I' o vs.
 Proof.
   intros (A & B & _). destruct o; cbn; auto.
-  destruct vs as [|a [|b [|c r]]]; auto. unfold vdiv. now rewrite A, B.
+  - destruct vs as [|a [|b [|c r]]]; auto. unfold vdiv. now rewrite A, B.
+  - destruct vs as [|a [|b [|c r]]]; auto. unfold vpow, rpow_neg. now rewrite A.
 Qed.
 
 Lemma bind1_agree Ps Pf I I' v x :
